@@ -93,12 +93,17 @@ class Case:
 
     def label(self):
         t = self.m["tog"]
-        return "%s shape=%s kt=%s kt2=%s ord=%s llt=%s extras=%s beh=%s flags=%s" % (
-            self.name, "oc" if t["oc"] else "plain", t["kt"], t["kt2"], t["ord"], t["llt"], t["extras"], self.beh, self.fs)
+        return "%s shape=%s kt=%s kt2=%s ord=%s llt=%s extras=%s beh=%s flags=%s%s" % (
+            self.name, "oc" if t["oc"] else "plain", t["kt"], t["kt2"], t["ord"], t["llt"], t["extras"], self.beh, self.fs,
+            (" " + " ".join(self.pflags)) if self.pflags else "")
+
+    pflags = []
 
     def sig(self, conj, **kw):
         t = self.m["tog"]
         s = dict(conjunct=conj, shape="oc" if t["oc"] else "plain", beh=self.beh, flags=self.fs)
+        if self.pflags:
+            s["pathflags"] = " ".join(self.pflags)
         s.update(kw)
         return s
 
@@ -127,13 +132,19 @@ def build_tools(h, bindir):
     vf.sh(["go", "build", "-o", os.path.join(bindir, "yangdump"), "./cmd/yangdump"], cwd=h)
 
 
+PATH_FLAGSETS = [[], ["-simplify_wildcard_paths"], ["-generate_wildcard_paths=false"], ["-generate_wildcard_paths=false", "-simplify_wildcard_paths"]]
+
+
 def prepare_cases(work, sel, path_structs=True, proto=False):
     """Renders the YANG of every selected case and runs the generator into h/gen/g<i>."""
     h = vf.copy_harness(work)
     bindir = vf.build_generators(h, work)
     build_tools(h, bindir)
     cases = [Case(i, m, fs) for i, (m, fs) in enumerate(sel)]
-    failures = []
+    if path_structs:
+        for c in cases:
+            c.pflags = PATH_FLAGSETS[c.idx % len(PATH_FLAGSETS)]
+            c.flags = c.flags + c.pflags
 
     def one(c):
         ydir = os.path.join(work, "yang", c.name)
@@ -358,7 +369,7 @@ def check_structs(c, d, viol, drift=None):
 
 # ---------------------------------------------------------------------------------- C27
 
-CMP_KEYS = ["kind", "keys", "config", "readonly", "ordered", "min", "max", "presence", "mandatory", "default", "prefix", "type"]
+CMP_KEYS = ["kind", "keys", "config", "readonly", "ordered", "min", "max", "presence", "mandatory", "default", "prefix", "units", "type"]
 
 
 def check_schema(c, d, gy, viol):
@@ -366,6 +377,9 @@ def check_schema(c, d, gy, viol):
     if d.get("schema_err"):
         viol.append(dict(property="C27", sig=c.sig("unzip-error"), detail="%s: UnzipSchema failed: %s" % (c.label(), d["schema_err"]), case=c.case()))
         return 0
+    for s in d["structs"]:
+        if not s["inschema"]:
+            viol.append(dict(property="C27", sig=c.sig("struct-entry-missing"), detail="%s: UnzipSchema() has no entry for the generated struct %s" % (c.label(), s["name"]), case=c.case()))
     emb = {n["path"]: n for n in d["schema"]}
     ref = {n["path"]: n for n in gy}
     for p in sorted(set(ref) - set(emb)):
@@ -446,6 +460,7 @@ def check_paths(c, d, viol):
         primary[f["node"]] = f
     covered = set()
     n = 0
+    simplify = "-simplify_wildcard_paths" in c.flags
     for pc in d.get("paths") or []:
         n += 1
         if pc.get("err"):
@@ -467,7 +482,9 @@ def check_paths(c, d, viol):
             pre = "/" + "/".join(e[0] for e in elems[:i + 1])
             node = c.nodes.get(pre)
             wantkeys = list(node["keys"]) if node and node["k"] == "list" else []
-            # the element a list-typed path struct itself ends at carries its keys too
+            # with simplify_wildcard_paths an element produced by an all-wildcard accessor omits its keys
+            if simplify and wantkeys and not keys and re.search(r"\.\w*Any\(\)", pc["chain"]):
+                continue
             if sorted(keys) != sorted(wantkeys):
                 viol.append(dict(property="C29", sig=c.sig("key-names"), detail="%s: %s -> %s: element %s has keys %s, the list's keys are %s" % (c.label(), pc["chain"], pc["resolved"], name, sorted(keys), wantkeys), case=c.case()))
         # the arguments of the last call are the key values of the last keyed element; '*' elsewhere for Any
@@ -480,7 +497,7 @@ def check_paths(c, d, viol):
             exp = sorted(pc["args"] + ["*"] * (len(f["keys"]) - len(pc["args"])))
             if vals != exp:
                 viol.append(dict(property="C29", sig=c.sig("key-values"), detail="%s: %s -> %s: key values %s, passed %s" % (c.label(), pc["chain"], pc["resolved"], vals, exp), case=c.case()))
-        if f["k"] == "list" and not pc["args"] and last_keys is not None and "Any" in pc["chain"].rsplit(".", 1)[1]:
+        if f["k"] == "list" and not pc["args"] and last_keys and "Any" in pc["chain"].rsplit(".", 1)[1]:
             if set(last_keys.values()) != {"*"}:
                 viol.append(dict(property="C29", sig=c.sig("wildcard-values"), detail="%s: %s -> %s: a wildcard accessor must give '*' for every key" % (c.label(), pc["chain"], pc["resolved"]), case=c.case()))
     for node, f in primary.items():
